@@ -508,4 +508,179 @@ theorem pastOK_mlsRecv {P e0 : Nat} {s : Store} (h : PastOK P e0 s) (T F m sende
     · exact pastOK_setTree h ht _
     · exact h
 
+/-! ### the client -/
+
+theorem mlsRecv_accept {T F : Nat} {s : Store} {m sender g : Nat} {t : Tree} (ht : treeFor s m = some t)
+    (h : (recv T F ((tlookup sender t).getD Ratchet.new) g).2 = .accepted) :
+    mlsRecv T F s m sender g = (setTree s m (tinsert sender (recv T F ((tlookup sender t).getD Ratchet.new) g).1 t), .accepted) := by
+  unfold mlsRecv; rw [ht]; simp only; rw [if_pos h, h]
+
+theorem mlsRecv_refuse {T F : Nat} {s : Store} {m sender g : Nat} {t : Tree} (ht : treeFor s m = some t)
+    (h : (recv T F ((tlookup sender t).getD Ratchet.new) g).2 ≠ .accepted) :
+    mlsRecv T F s m sender g = (s, (recv T F ((tlookup sender t).getD Ratchet.new) g).2) := by
+  unfold mlsRecv; rw [ht]; simp only; rw [if_neg h]
+
+theorem treeFor_setTree {s : Store} {m : Nat} {t0 : Tree} (_h : treeFor s m = some t0) (t : Tree) :
+    treeFor (setTree s m t) m = some t := by
+  by_cases c : m < s.epoch
+  · simp [treeFor, setTree, c, tlookup_tinsert_self]
+  · simp [treeFor, setTree, c]
+
+theorem setTree_epoch (s : Store) (m : Nat) (t : Tree) : (setTree s m t).epoch = s.epoch := by
+  unfold setTree; split <;> rfl
+
+/-- the receiver `c` can open messages of sender `s` from epoch `m`, and `r` is its ratchet for them -/
+structure Chain (c : Cl) (m s : Nat) (r : Ratchet) : Prop where
+  notOwn : s ≠ c.id
+  outer : outerOpens c m = true
+  tree : ∃ t, treeFor c.st m = some t ∧ (tlookup s t).getD Ratchet.new = r
+
+theorem deliver_eq_step1 {c : Cl} {w : Msg} (h : ∀ rc, tlookup w.n c.recs = some rc → rc.state ≠ 3) :
+    deliver c w = step1 c w := by
+  unfold deliver
+  split
+  · rename_i rc hrc; rw [if_neg (h rc hrc)]
+  · rfl
+
+/-- an offer the ratchet accepts: result, the row written, the record written, and what stays -/
+theorem step1_accept {c : Cl} {m s : Nat} {r : Ratchet} (ch : Chain c m s r) (w : Msg) (hs : w.sender = s) (hm : w.epoch = m)
+    (hacc : (recv c.cfg.T c.cfg.F r w.gen).2 = .accepted) :
+    ∃ c1, step1 c w = (c1, .app w.mid) ∧ Chain c1 m s (recv c.cfg.T c.cfg.F r w.gen).1 ∧
+      c1.cfg = c.cfg ∧ c1.id = c.id ∧ c1.joined = c.joined ∧ c1.st.epoch = c.st.epoch ∧
+      c1.rows = upsertRow ⟨w.mid, s, 1, c.st.epoch, w.tok⟩ c.rows ∧
+      c1.recs = tinsert w.n ⟨1, some c.st.epoch, some w.mid⟩ c.recs := by
+  obtain ⟨t, ht, hr⟩ := ch.tree
+  subst hs hm hr
+  have e := mlsRecv_accept (sender := w.sender) ht hacc
+  refine ⟨{ c with st := setTree c.st w.epoch (tinsert w.sender (recv c.cfg.T c.cfg.F ((tlookup w.sender t).getD Ratchet.new) w.gen).1 t), rows := upsertRow ⟨w.mid, w.sender, 1, c.st.epoch, w.tok⟩ c.rows, recs := tinsert w.n ⟨1, some c.st.epoch, some w.mid⟩ c.recs }, ?_, ?_, rfl, rfl, rfl, ?_, rfl, rfl⟩
+  · unfold step1
+    rw [ch.outer, ht]
+    simp only [Bool.not_true, Bool.false_eq_true, if_false, if_neg ch.notOwn, e, if_true, storeApp]
+    simp [setTree_epoch]
+  · refine ⟨ch.notOwn, ?_, ⟨_, treeFor_setTree ht _, by rw [tlookup_tinsert_self]; rfl⟩⟩
+    have := ch.outer
+    unfold outerOpens at this ⊢
+    simpa [setTree_epoch] using this
+  · simp [setTree_epoch]
+
+/-- an offer the ratchet refuses: `Unprocessable`, rows and ratchets untouched, a Failed record -/
+theorem step1_refuse {c : Cl} {m s : Nat} {r : Ratchet} (ch : Chain c m s r) (w : Msg) (hs : w.sender = s) (hm : w.epoch = m)
+    (hacc : (recv c.cfg.T c.cfg.F r w.gen).2 ≠ .accepted) :
+    step1 c w = (recordFailure c w.n (some c.st.epoch), .unprocessable) := by
+  obtain ⟨t, ht, hr⟩ := ch.tree
+  subst hs hm hr
+  have e := mlsRecv_refuse (sender := w.sender) ht hacc
+  unfold step1
+  rw [ch.outer, ht]
+  simp only [Bool.not_true, Bool.false_eq_true, if_false, if_neg ch.notOwn, e, if_neg hacc]
+
+theorem findRow_upsert_self (r : Row) (l : List Row) : findRow r.mid (upsertRow r l) = some r := by
+  induction l with
+  | nil => simp [upsertRow, findRow]
+  | cons a t ih =>
+    by_cases e : a.mid = r.mid
+    · simp [upsertRow, findRow, e]
+    · simp [upsertRow, findRow, e, ih]
+
+theorem findRow_upsert_ne {r : Row} {k : Nat} (h : k ≠ r.mid) (l : List Row) : findRow k (upsertRow r l) = findRow k l := by
+  have h' : ¬ r.mid = k := fun e => h e.symm
+  induction l with
+  | nil => simp [upsertRow, findRow, h']
+  | cons a t ih =>
+    by_cases e : a.mid = r.mid
+    · simp [upsertRow, findRow, e, h']
+    · by_cases e2 : a.mid = k
+      · subst e2; simp [upsertRow, findRow, e]
+      · simp [upsertRow, findRow, e, e2, ih]
+
+/-- inside the past-epoch window (and the fixed outer look-back) the chain exists -/
+theorem chain_of_window {c : Cl} (ok : PastOK c.cfg.P c.joined c.st) {m s : Nat} (hs : s ≠ c.id)
+    (h1 : c.joined ≤ m) (h2 : m ≤ c.st.epoch) (h3 : c.st.epoch - m ≤ c.cfg.P) (h4 : c.st.epoch - m ≤ c.cfg.L) :
+    ∃ r, Chain c m s r := by
+  cases ht : treeFor c.st m with
+  | none =>
+    have := (treeFor_none_iff ok m).mp ht
+    omega
+  | some t =>
+    exact ⟨_, hs, by unfold outerOpens; simp [h1, h2, h4], t, ht, rfl⟩
+
+theorem deliver_frame (c : Cl) (w : Msg) :
+    (deliver c w).1.cfg = c.cfg ∧ (deliver c w).1.joined = c.joined ∧ (deliver c w).1.id = c.id ∧
+    ((deliver c w).1.st = c.st ∨ (deliver c w).1.st = (mlsRecv c.cfg.T c.cfg.F c.st w.epoch w.sender w.gen).1) := by
+  unfold deliver step1 ownMessage storeApp recordFailure
+  repeat' split
+  all_goals simp_all
+
+theorem deliverAll_cons (c : Cl) (w : Msg) (ws : List Msg) :
+    deliverAll c (w :: ws) = ((deliverAll (deliver c w).1 ws).1, (deliver c w).2 :: (deliverAll (deliver c w).1 ws).2) := rfl
+
+/-- a burst inside the windows, offered to a receiver that can open the chain: every offer is stored -/
+theorem deliverAll_inside (ws : List Msg) {c : Cl} {m s : Nat} {r : Ratchet} {A : List Nat}
+    (ch : Chain c m s r) (inv : Inv c.cfg.T r A)
+    (same : ∀ w ∈ ws, w.sender = s ∧ w.epoch = m)
+    (gens : (ws.map (·.gen)).Nodup) (hA : ∀ w ∈ ws, w.gen ∉ A)
+    (wrappers : (ws.map (·.n)).Nodup) (mids : (ws.map (·.mid)).Nodup)
+    (fresh : ∀ w ∈ ws, ∀ rc, tlookup w.n c.recs = some rc → rc.state ≠ 3)
+    (hw : inWin c.cfg.T c.cfg.F r.head (ws.map (·.gen)) = true) :
+    (deliverAll c ws).2 = ws.map (fun w => Res.app w.mid) ∧
+    (∃ r', Chain (deliverAll c ws).1 m s r' ∧ Inv c.cfg.T r' ((ws.map (·.gen)).reverse ++ A)) ∧
+    (deliverAll c ws).1.cfg = c.cfg ∧ (deliverAll c ws).1.st.epoch = c.st.epoch ∧
+    (∀ w ∈ ws, findRow w.mid (deliverAll c ws).1.rows = some ⟨w.mid, s, 1, c.st.epoch, w.tok⟩) ∧
+    (∀ k, k ∉ ws.map (·.mid) → findRow k (deliverAll c ws).1.rows = findRow k c.rows) ∧
+    (∀ w ∈ ws, tlookup w.n (deliverAll c ws).1.recs = some ⟨1, some c.st.epoch, some w.mid⟩) ∧
+    (∀ k, k ∉ ws.map (·.n) → tlookup k (deliverAll c ws).1.recs = tlookup k c.recs) := by
+  induction ws generalizing c r A with
+  | nil => exact ⟨rfl, ⟨r, ch, by simpa using inv⟩, rfl, rfl, by simp, by simp [deliverAll], by simp, by simp [deliverAll]⟩
+  | cons w ws ih =>
+    simp only [List.map_cons, inWin, Bool.and_eq_true, decide_eq_true_eq] at hw
+    obtain ⟨⟨⟨h1, h2⟩, h3⟩, h4⟩ := hw
+    simp only [List.map_cons, List.nodup_cons] at gens wrappers mids
+    obtain ⟨hs, hm⟩ := same w (by simp)
+    have sp := recv_spec (F := c.cfg.F) inv w.gen
+    have hacc : (recv c.cfg.T c.cfg.F r w.gen).2 = .accepted := by
+      rw [sp.2.2.2.2.1]
+      exact ⟨by unfold TooFar; omega, by unfold TooOld; omega, h3, hA w (by simp)⟩
+    obtain ⟨_, inv1, hh⟩ := sp.1 hacc
+    obtain ⟨c1, e1, ch1, hcfg, _, _, hep, hrows, hrecs⟩ := step1_accept ch w hs hm hacc
+    have ed : deliver c w = (c1, .app w.mid) := by rw [deliver_eq_step1 (fresh w (by simp)), e1]
+    have ih' := ih (c := c1) (r := (recv c.cfg.T c.cfg.F r w.gen).1) (A := w.gen :: A) ch1 (by rw [hcfg]; exact inv1)
+      (fun x hx => same x (by simp [hx])) gens.2
+      (by
+        intro x hx hmem
+        simp only [List.mem_cons] at hmem
+        rcases hmem with e | hmem
+        · exact gens.1 (by rw [← e]; exact List.mem_map_of_mem hx)
+        · exact hA x (by simp [hx]) hmem)
+      wrappers.2 mids.2
+      (by
+        intro x hx rc hrc
+        have hne : x.n ≠ w.n := fun e => wrappers.1 (by rw [← e]; exact List.mem_map_of_mem hx)
+        rw [hrecs, tlookup_tinsert_ne hne] at hrc
+        exact fresh x (by simp [hx]) rc hrc)
+      (by rw [hcfg, hh]; exact h4)
+    obtain ⟨i1, ⟨r', chr, invr⟩, i3, i4, i5, i6, i7, i8⟩ := ih'
+    rw [deliverAll_cons, ed]
+    refine ⟨by simp [i1], ⟨r', chr, ?_⟩, by rw [i3, hcfg], by rw [i4, hep], ?_, ?_, ?_, ?_⟩
+    · rw [hcfg] at invr; simpa [List.append_assoc] using invr
+    · intro x hx
+      simp only [List.mem_cons] at hx
+      rcases hx with rfl | hx
+      · rw [i6 _ mids.1, hrows]
+        exact findRow_upsert_self ⟨x.mid, s, 1, c.st.epoch, x.tok⟩ c.rows
+      · rw [i5 x hx, hep]
+    · intro k hk
+      simp only [List.map_cons, List.mem_cons, not_or] at hk
+      rw [i6 k hk.2, hrows]
+      exact findRow_upsert_ne hk.1 _
+    · intro x hx
+      simp only [List.mem_cons] at hx
+      rcases hx with rfl | hx
+      · rw [i8 _ wrappers.1, hrecs]
+        exact tlookup_tinsert_self _ _ _
+      · rw [i7 x hx, hep]
+    · intro k hk
+      simp only [List.map_cons, List.mem_cons, not_or] at hk
+      rw [i8 k hk.2, hrecs]
+      exact tlookup_tinsert_ne hk.1 _ _
+
 end MdkVerif.Ratchet
